@@ -3806,6 +3806,12 @@ class TLSConnection(TLSRecordLayer):
             self.version = min(clientHello.client_version, (3, 3))
             version = self.version
 
+        if version < settings.minVersion:
+            for result in self._sendError(
+                    AlertDescription.protocol_version,
+                    "Too old version: %s" % str(version)):
+                yield result
+
         #Detect if the client performed an inappropriate fallback.
         if version < settings.maxVersion and \
                 CipherSuite.TLS_FALLBACK_SCSV in clientHello.cipher_suites:
